@@ -295,7 +295,9 @@ def observe(case):
 
 
 def classify(rec, verdict):
-    return "malformed" if verdict.startswith("malformed") else "violation"
+    if verdict.startswith("malformed"):
+        return "malformed"
+    return "drift" if verdict.startswith("layers:") else "violation"
 
 
 def run(ctx):
